@@ -56,6 +56,9 @@ def cases(tier, seed):
                 out.append(dict(model="symnco", env=env, s=rnd.randrange(10**6), epochs=2, S=S, A=A, bs=3))
             for norm in (False, True):
                 out.append(dict(model="ppo", env=env, s=rnd.randrange(10**6), epochs=2, mb=rnd.choice([2, 3]), norm_adv=norm, bs=6, train=12))
+            # documented mini-batch specifications: a fraction of the rollout batch, a size above the batch (clamped), with an lr schedule
+            out.append(dict(model="ppo", env=env, s=rnd.randrange(10**6), epochs=2, mb=0.5, norm_adv=False, bs=6, train=12))
+            out.append(dict(model="ppo", env=env, s=rnd.randrange(10**6), epochs=2, mb=64, norm_adv=True, bs=5, train=10, sched=True))
     return out
 
 
